@@ -14,7 +14,7 @@ func init() {
 	register(&propertyDef{
 		id:    "C20",
 		title: "the engine API classifies results and resolves files consistently",
-		rules: []ruleFunc{c20R1, c20R2, c20R3, c20R4, c20R5, c20R6, c20R7, c20R8, c20R9},
+		rules: []ruleFunc{c20R1, c20R2, c20R3, c20R4, c20R5, c20R6, c20R7, c20R8, c20R9, c20R10},
 		decided: "engineWorkflow.Run flags the result with OutputSchema()[id].Error() of the very id Execute returned, and every error return carries the flag true (R1); infer.OutputSchema derives the error flag from `outputID == \"error\"` only when no explicit schema was given and returns an explicit schema unchanged (R2); " +
 			"the exit-code table of the command-line tool: parse error 1, run error 3, error output 2, otherwise 0 (R3); file access in the engine is confined to loadfile.LoadContext, the readFile built-in and cmd/*, and relative names are joined with the absolute context directory (R4); " +
 			"RunWorkflow = Parse then Run on the same context and file name, the default workflow file name is workflow.yaml (R5). The declared output schema object itself reaches infer.OutputSchema (R7); parsing/preparing keeps no state between calls (R8 = C10.R5).",
@@ -295,7 +295,8 @@ func c20R4(c *Ctx) {
 			}
 			nm := calleeName(cc)
 			switch nm {
-			case "os.ReadFile", "os.Open", "os.OpenFile", "os.ReadDir", "os.Stat", "os.Lstat", "os.Create", "os.WriteFile", "io/ioutil.ReadFile", "io/ioutil.ReadDir":
+			case "os.ReadFile", "os.Open", "os.OpenFile", "os.ReadDir", "os.Stat", "os.Lstat", "os.Create", "os.WriteFile", "io/ioutil.ReadFile", "io/ioutil.ReadDir",
+				"os.Chdir", "os.Setenv", "os.Unsetenv", "os.Chroot": // process-wide state that changes what a relative name means for every later run
 			default:
 				return
 			}
